@@ -12,6 +12,7 @@ import (
 	"fmt"
 	"os"
 	"sort"
+	"strings"
 
 	"github.com/nginx/kubernetes-ingress/internal/configs"
 	"github.com/nginx/kubernetes-ingress/internal/k8s"
@@ -37,6 +38,11 @@ type Ev struct {
 	Endp   bool   `json:"endp,omitempty"`   // r: isEndpointsUpdate
 	Stream bool   `json:"stream,omitempty"` // a
 	OK     bool   `json:"ok,omitempty"`     // r, a
+	// a: the servers pushed through the API differ from the `server` lines of that upstream in the
+	// configuration file on disk (the file the operation has just written)
+	Mis    bool     `json:"mis,omitempty"`
+	Pushed []string `json:"pushed,omitempty"`
+	InFile []string `json:"infile,omitempty"`
 }
 
 var errInjectedReload = errors.New("verif: injected reload failure")
@@ -101,23 +107,77 @@ func (m *recMgr) Reload(isEndpointsUpdate bool) error {
 	return nil
 }
 
-func (m *recMgr) api(stream bool, upstream string) error {
+// serversInFile returns the addresses of the non-backup `server` lines of `upstream <name> { ... }`
+// in the configuration files on disk (conf.d for http, stream-conf.d for stream upstreams).
+func (m *recMgr) serversInFile(stream bool, upstream string) ([]string, bool) {
+	prefix := "c:"
+	if stream {
+		prefix = "s:"
+	}
+	var names []string
+	for k := range m.files {
+		if strings.HasPrefix(k, prefix) {
+			names = append(names, k)
+		}
+	}
+	sort.Strings(names)
+	for _, k := range names {
+		lines := strings.Split(string(m.files[k]), "\n")
+		for i, ln := range lines {
+			f := strings.Fields(ln)
+			if len(f) >= 3 && f[0] == "upstream" && f[1] == upstream && f[2] == "{" {
+				out := []string{}
+				for _, l2 := range lines[i+1:] {
+					g := strings.Fields(l2)
+					if len(g) > 0 && g[0] == "}" {
+						break
+					}
+					if len(g) >= 2 && g[0] == "server" {
+						backup := false
+						for _, w := range g[2:] {
+							if strings.TrimSuffix(w, ";") == "backup" {
+								backup = true
+							}
+						}
+						if !backup {
+							out = append(out, strings.TrimSuffix(g[1], ";"))
+						}
+					}
+				}
+				sort.Strings(out)
+				return out, true
+			}
+		}
+	}
+	return nil, false
+}
+
+func (m *recMgr) api(stream bool, upstream string, servers []string) error {
 	i := m.napi
 	m.napi++
+	e := Ev{E: "a", Stream: stream, N: upstream, OK: !m.afail[i]}
+	pushed := append([]string{}, servers...)
+	sort.Strings(pushed)
+	inFile, found := m.serversInFile(stream, upstream)
+	if !found || strings.Join(pushed, " ") != strings.Join(inFile, " ") {
+		e.Mis, e.Pushed, e.InFile = true, pushed, inFile
+		if !found {
+			e.InFile = []string{"<no such upstream in any file>"}
+		}
+	}
+	m.log = append(m.log, e)
 	if m.afail[i] {
-		m.log = append(m.log, Ev{E: "a", Stream: stream, N: upstream, OK: false})
 		return errInjectedAPI
 	}
-	m.log = append(m.log, Ev{E: "a", Stream: stream, N: upstream, OK: true})
 	return nil
 }
 
-func (m *recMgr) UpdateServersInPlus(upstream string, _ []string, _ nginx.ServerConfig) error {
-	return m.api(false, upstream)
+func (m *recMgr) UpdateServersInPlus(upstream string, servers []string, _ nginx.ServerConfig) error {
+	return m.api(false, upstream, servers)
 }
 
-func (m *recMgr) UpdateStreamServersInPlus(upstream string, _ []string) error {
-	return m.api(true, upstream)
+func (m *recMgr) UpdateStreamServersInPlus(upstream string, servers []string) error {
+	return m.api(true, upstream, servers)
 }
 
 func (m *recMgr) take() []Ev {
@@ -149,12 +209,14 @@ type shape struct {
 	nup     int
 	split   bool
 	minions int
+	xroute  bool // vs: delegates /x to a VirtualServerRoute in namespace "other" whose upstream uses a Service
+	// with the same name as the VirtualServer's own first Service
 }
 
 var pool = map[string]map[string]shape{
 	"ing":   {"a": {nup: 1}, "b": {nup: 2}, "c": {nup: 3}},
 	"merge": {"m": {minions: 1}, "n": {minions: 2}},
-	"vs":    {"v": {nup: 1}, "w": {nup: 2, split: true}, "x": {nup: 2}},
+	"vs":    {"v": {nup: 1}, "w": {nup: 2, split: true}, "x": {nup: 2}, "y": {nup: 1, xroute: true}},
 	"ts":    {"t": {nup: 1}, "u": {nup: 2}},
 }
 
@@ -204,6 +266,9 @@ func fill(r *Res, plus, dynw bool) {
 		g := []string{}
 		for i := 0; i < sh.nup; i++ {
 			g = append(g, fmt.Sprintf("vs_%s_%s_u%d", ns, r.Name, i))
+		}
+		if sh.xroute {
+			g = append(g, fmt.Sprintf("vs_%s_%s_vsr_other_%s-route_u0", ns, r.Name, r.Name))
 		}
 		r.Apis = append(r.Apis, g)
 		if sh.split && dynw {
@@ -326,8 +391,21 @@ func buildVS(r Res) *configs.VirtualServerEx {
 				Action: &conf_v1.Action{Pass: fmt.Sprintf("u%d", i)}})
 		}
 	}
-	return &configs.VirtualServerEx{VirtualServer: vs, Endpoints: eps, ExternalNameSvcs: map[string]bool{},
+	vsx := &configs.VirtualServerEx{VirtualServer: vs, Endpoints: eps, ExternalNameSvcs: map[string]bool{},
 		HTTPPort: 80, HTTPSPort: 443}
+	if sh.xroute {
+		svc := fmt.Sprintf("%s-svc0", r.Name) // same Service name as in the VirtualServer's namespace, other pods
+		vs.Spec.Routes = append(vs.Spec.Routes, conf_v1.Route{Path: "/x", Route: "other/" + r.Name + "-route"})
+		vsx.VirtualServerRoutes = []*conf_v1.VirtualServerRoute{{
+			ObjectMeta: meta_v1.ObjectMeta{Name: r.Name + "-route", Namespace: "other"},
+			Spec: conf_v1.VirtualServerRouteSpec{
+				Host:      vs.Spec.Host,
+				Upstreams: []conf_v1.Upstream{{Name: "u0", Service: svc, Port: 80, ProxyConnectTimeout: fmt.Sprintf("%ds", 10+r.SV)}},
+				Subroutes: []conf_v1.Route{{Path: "/x", Action: &conf_v1.Action{Pass: "u0"}}},
+			}}}
+		eps[fmt.Sprintf("other/%s:80", svc)] = endpointsFor(r.EV, 100)
+	}
+	return vsx
 }
 
 func buildTS(r Res) *configs.TransportServerEx {
@@ -783,6 +861,11 @@ func corpusCfg() []Case {
 				{Op: "endp", Kind: "ts", Rs: []Res{*mk("ts", "u", 0, 2, true, false)}},
 				{Op: "endp", Kind: "vs", Rs: []Res{*mk("vs", "x", 0, 1, true, false), *mk("vs", "v", 0, 1, true, false)}}}})
 	}
+	// Plus: endpoints of a VirtualServer whose route lives in another namespace, with a same-named Service there
+	out = append(out, Case{Class: "corpus-plus-xroute", Plus: true, DynW: false, RFail: []int{}, AFail: []int{},
+		Ops: []Op{{Op: "enable"}, {Op: "add", Res: mk("vs", "y", 0, 0, true, false)},
+			{Op: "endp", Kind: "vs", Rs: []Res{*mk("vs", "y", 0, 1, true, false)}},
+			{Op: "endp", Kind: "vs", Rs: []Res{*mk("vs", "y", 0, 2, true, false), *mk("vs", "v", 0, 1, true, false)}}}})
 	// content comparison: AddOrUpdateResources with unchanged content does not reload
 	out = append(out, Case{Class: "corpus-unchanged", Plus: false, DynW: false, RFail: []int{}, AFail: []int{},
 		Ops: []Op{{Op: "enable"}, {Op: "addres", Rs: []Res{*mk("ing", "a", 0, 0, false, false), *mk("ts", "t", 0, 0, false, false)}},
@@ -1269,6 +1352,63 @@ func genCtl(r *vh.Rng, id int) Case {
 		c.Plus = true
 	}
 	w := newWorld(c.Plus, c.DynW)
+	if id%5 == 4 {
+		// flags carried across batches: start-up, a few events, a batch that contains a ConfigMap (and other
+		// tasks), then a batch made only of EndpointSlices that no configured resource uses, then more events
+		c.Class += "-twobatch"
+		c.DynW = false
+		w.dynw = false
+		var ts []Task
+		push := func(t Task, q int) {
+			t.QLen = q
+			w.predict(&t)
+			ts = append(ts, t)
+		}
+		push(Task{Kind: "ingress", Name: "a", Act: "set", SV: r.Intn(3)}, 0)
+		for i := r.Intn(3); i > 0; i-- {
+			push(genTask(r, w), 0)
+		}
+		k := 2 + r.Intn(3)
+		cmAt := r.Intn(k + 1)
+		for q := k; q >= 0; q-- {
+			if q == cmAt {
+				push(Task{Kind: "configmap", Name: "nginx-config", Act: "set", MV: 1 + r.Intn(3)}, q)
+			} else {
+				push(genTask(r, w), q)
+			}
+		}
+		for i := r.Intn(2); i > 0; i-- {
+			push(genTask(r, w), 0)
+		}
+		// services of resources the controller does not know now (and z-svc, which nothing uses)
+		var unused []string
+		for _, sname := range ctlSvcs {
+			used := false
+			for n := range w.known {
+				for _, x := range ctlPool[n].svcs {
+					if x == sname {
+						used = true
+					}
+				}
+			}
+			if !used {
+				unused = append(unused, sname)
+			}
+		}
+		k = 2 + r.Intn(3)
+		for q := k; q >= 0; q-- {
+			t := Task{Kind: "endpointslice", Name: vh.Pick(r, unused), Act: "set", EV: 1 + r.Intn(3)}
+			if r.Chance(1, 5) {
+				t.Act = "touch"
+			}
+			push(t, q)
+		}
+		for i := r.Intn(4); i > 0; i-- {
+			push(genTask(r, w), r.Intn(2))
+		}
+		c.Tasks = ts
+		return c
+	}
 	n := 3 + r.Intn(28)
 	// queue lengths: a start-up phase, then bursts (batches) and single events
 	startup := r.Intn(5)
@@ -1338,6 +1478,15 @@ func corpusCtl() []Case {
 	add("corpus-uab-sticky", false, false, []int{}, []int{},
 		[]Task{ing("a", "set", 0, 0), {Kind: "configmap", Name: "nginx-config", Act: "set", MV: 1, QLen: 2}, ing("a", "touch", 0, 0),
 			ing("a", "touch", 0, 2), ing("a", "touch", 0, 0)})
+	// state carried from one batch to the next: a batch with a ConfigMap, then a batch made only of
+	// EndpointSlices no resource uses (nothing NGINX reads can change) must not reload
+	cm := func(mv, q int) Task { return Task{Kind: "configmap", Name: "nginx-config", Act: "set", MV: mv, QLen: q} }
+	add("corpus-cm-batch-then-idle-endp", false, false, []int{}, []int{},
+		[]Task{ing("a", "set", 0, 0), cm(1, 2), ing("a", "set", 1, 1), eps("a-svc", "set", 1, 0),
+			eps("z-svc", "set", 1, 2), eps("z-svc", "set", 2, 1), eps("z-svc", "delete", 0, 0)})
+	add("corpus-cm-batch-then-idle-endp", true, false, []int{}, []int{},
+		[]Task{ing("a", "set", 0, 0), eps("z-svc", "set", 1, 2), cm(2, 1), eps("b-svc", "set", 1, 0),
+			eps("b-svc", "set", 2, 3), eps("z-svc", "set", 2, 2), eps("v-svc", "set", 2, 1), eps("t-svc", "touch", 0, 0)})
 	// F15 at the controller: a VirtualServer with weight updates during start-up and in a batch
 	add("corpus-weights-batch", true, true, []int{}, []int{},
 		[]Task{{Kind: "virtualserver", Name: "w", Act: "set", SV: 0, QLen: 1}, ing("a", "set", 0, 0),
